@@ -28,7 +28,9 @@ SumSeq(s) == IF s = <<>> THEN 0 ELSE Head(s) + SumSeq(Tail(s))
 Map(f(_), s) == [i \in 1..Len(s) |-> f(s[i])]
 Count(P(_), s) == Cardinality({i \in 1..Len(s) : P(s[i])})
 (* bytes needed for an index into an array of alen slots: ceil(log2(alen) / 8) *)
-IndexWidth(alen) == CHOOSE w \in 0..4 : 256 ^ w >= alen /\ (w = 0 \/ 256 ^ (w - 1) < alen)
+IndexWidth(alen) == CHOOSE w \in 0..3 : 256 ^ w >= alen /\ (w = 0 \/ 256 ^ (w - 1) < alen)      \* alen < 2^24 here
+(* alen <= 256^w, without computing powers beyond TLC's 32-bit integers *)
+FitsWidth(alen, w) == IF w >= 4 THEN TRUE ELSE alen <= 256 ^ w
 (* AES-CBC ciphertext of an m-byte message: 16-byte IV + PKCS7-padded body (property C14) *)
 EncLen(m) == 16 + 16 * (m \div 16 + 1)
 
@@ -61,7 +63,7 @@ P2Large(n, c) == ~P2Small(n, c) /\ ~P2Medium(n, c) /\ c.B * c.bp < n /\ n < c.B 
 Pi2LevALen(p, c) == 1 + SumSeq(Map(LAMBDA n : (IF n > c.b THEN CeilDiv(n, c.B) ELSE 0)
                                               + (IF n > c.bp * c.B THEN CeilDiv(n, c.B * c.Bp) ELSE 0), p))
 Pi2LevOutcome(p, c) ==
-    IF Pi2LevALen(p, c) > 256 ^ c.idxw THEN "raised"
+    IF ~FitsWidth(Pi2LevALen(p, c), c.idxw) THEN "raised"
     ELSE IF \E i \in 1..Len(p) : ~(P2Small(p[i], c) \/ P2Medium(p[i], c) \/ P2Large(p[i], c)) THEN "raised"
     ELSE "built"
 Pi2LevShape(p, c) ==
@@ -103,9 +105,15 @@ DPBucketTable(i, n, c) ==
         v |-> IF rest = 0 THEN << <<bs * c.clen, full>> >>
               ELSE IF rest < bs THEN << <<rest * c.clen, 1>>, <<bs * c.clen, full>> >>
               ELSE << <<bs * c.clen, full>>, <<rest * c.clen, 1>> >>]
+(* Deviation kept as the code has it: with L > 1 the level list gets an extra 0 appended; for N = 1 (l = 0) level 0 *)
+(* is then listed twice and its two buckets are padded twice (3 and 4 entries instead of 2 and 2).                  *)
+DPDupZero(p, c) == c.L > 1 /\ CeilLog2(N(p)) = 0
 DP17Shape(p, c) ==
     LET lv == SetToSortedSeq(DPLevels(p, c))
-    IN [j \in 1..Len(lv) |-> DPBucketTable(lv[j], N(p), c)] \o << Table("HT", N(p), c.hlen, c.hlen) >>
+    IN (IF DPDupZero(p, c)
+        THEN << [name |-> "A0", n |-> 2, k |-> <<>>, v |-> << <<3 * c.clen, 1>>, <<4 * c.clen, 1>> >>] >>
+        ELSE [j \in 1..Len(lv) |-> DPBucketTable(lv[j], N(p), c)])
+       \o << Table("HT", N(p), c.hlen, c.hlen) >>
 
 (* ------------------------------ dispatch ------------------------------ *)
 Outcome(s, p, c) ==
